@@ -127,6 +127,42 @@ Definition window_obs_ok (cfg : config) (L : limits) (p : ipath) (req : option Z
        (lo - 1 <=? vb) && (vb <=? hi + 1))
   end.
 
+(* ---------------------------------------------------------------------------------------------
+   the issuing CA certificate's own validity: a component of the server state.  keymasterd makes its
+   CA certificates itself when it is unsealed, NotBefore = the wall clock of that moment (which may
+   have been ahead and stepped back since), NotAfter years later; a CA certificate may also be about
+   to expire.  getSignerX509CAForPublic / generateRoleRequestingCert / generateRoleCert hand the
+   parsed CA certificate to the generators, which use its subject and key identifiers only: every
+   bound of the property is counted from the moment of issuance, so the model carries the CA
+   validity and IGNORES it - the theorems are stated for EVERY CA validity. *)
+Definition ca_validity := (Z * Z)%type.      (* (NotBefore, NotAfter) of the issuing CA certificate, ns *)
+Definition effective_window_ca (ca : ca_validity) (cfg : config) (L : limits) (p : ipath) (req : option Z)
+           (c : cred) (now0 now1 now2 : Z) : option (Z * Z) :=
+  effective_window cfg L p req c now0 now1 now2.
+Definition window_obs_ok_ca (ca : ca_validity) (cfg : config) (L : limits) (p : ipath) (req : option Z)
+           (c : cred) (t0_s t1_s : Z) (issued : bool) (va vb : Z) : bool :=
+  window_obs_ok cfg L p req c t0_s t1_s issued va vb.
+
+(* NOT the code: a generator that nests the new certificate's validity inside the issuer's (NotBefore
+   raised to the CA's, the duration counted from there, the end clamped to the CA's end) *)
+Definition x509_window_nested (ca_nb ca_na now2 d : Z) : Z * Z :=
+  let nb := Z.max now2 ca_nb in (nb, Z.min (nb + d) ca_na).
+
+(* the property's own predicate on an OBSERVATION (seconds; t1_s = the clock right after the answer):
+   the certificate starts after the moment it was handed out, or it ends later than that moment plus
+   the requested duration (when the request is one the handler serves) / the path's limit, or - on
+   /certgen/ - later than the authenticated-at instant plus the cap without being born expired.
+   One second of clock granularity and one of rounding are allowed, as in the correspondence. *)
+Definition obs_limit (L : limits) (p : ipath) (req : option Z) : Z :=
+  match req with
+  | Some r => if is_certgen p && (0 <? r) && (r <=? maxc L) then r else path_limit L p
+  | None => path_limit L p
+  end.
+Definition obs_starts_in_future (t1_s va : Z) : bool := t1_s + 1 <? va.
+Definition obs_ends_too_late (L : limits) (p : ipath) (req : option Z) (c : cred) (t1_s va vb : Z) : bool :=
+  (t1_s + 1 + Z.quot (obs_limit L p req) NS + 1 <? vb) ||
+  (is_certgen p && (Z.max va (Z.quot (issued_at c ((t1_s + 1) * NS)) NS + Z.quot (maxc L) NS + 1) + 1 <? vb)).
+
 (* decoding of the harness's small codes *)
 Definition path_of (n : Z) : ipath :=
   if n =? 0 then CertgenSSH else if n =? 1 then CertgenX509 else if n =? 2 then Role
